@@ -2,4 +2,292 @@
 
 package main
 
-func installChildSeams() {}
+// Fake Atlas endpoint (DESIGN.md 2.9): a RoundTripper that logs every request and answers from a
+// script.  In child-cli mode it replaces http.DefaultTransport (which NewAtlasClient(nil) ends up
+// using) and the real main() runs; the same type is used in-process for the library-level checks.
+
+import (
+	"bytes"
+	"compress/gzip"
+	"crypto/md5"
+	"encoding/json"
+	"errors"
+	"fmt"
+	"io"
+	"net/http"
+	"os"
+	"regexp"
+	"sort"
+	"strings"
+	"sync"
+)
+
+const atlasHost = "cloud.mongodb.com"
+
+// answers of the fake server
+const (
+	AnsDigest  = "digest"  // 401 + WWW-Authenticate: Digest … (only meaningful for an unauthenticated request)
+	AnsOK      = "ok"      // 200 with the scripted body
+	AnsBasic   = "basic"   // 401 + WWW-Authenticate: Basic realm=…
+	Ans401     = "401"     // 401 without a challenge header
+	Ans403     = "403"     // 403 with a JSON error body
+	Ans404     = "404"     // 404 with a JSON error body
+	Ans500Echo = "500echo" // 500 whose body echoes the request line and all request headers
+	AnsNetErr  = "neterr"  // transport error (connection reset before any header)
+	AnsCut     = "cut"     // 200, body cut after Cut bytes (connection dropped mid-body)
+	AnsBadDig  = "baddigest" // 401 with a malformed Digest challenge
+)
+
+type HostScript struct {
+	Unauth  string `json:"unauth"`
+	Auth    string `json:"auth"`
+	Payload []byte `json:"payload"`
+	Cut     int    `json:"cut"`
+}
+
+type AtlasScript struct {
+	Public, Private string
+	ClusterUnauth   string
+	ClusterAuth     string
+	ClusterBody     string
+	ClusterCut      int
+	Hosts           map[string]*HostScript
+}
+
+type AtlasReq struct {
+	Method  string              `json:"method"`
+	URL     string              `json:"url"`
+	Scheme  string              `json:"scheme"`
+	Host    string              `json:"host"`
+	Path    string              `json:"path"`
+	Query   string              `json:"query"`
+	Header  map[string][]string `json:"header"`
+	Body    string              `json:"body"`
+	Auth    string              `json:"auth"`    // "", "digest-ok", "digest-bad", "basic", "other"
+	Kind    string              `json:"kind"`    // cluster | log | other
+	LogHost string              `json:"logHost"` // for kind log
+	Answer  string              `json:"answer"`
+}
+
+type fakeAtlas struct {
+	mu     sync.Mutex
+	script *AtlasScript
+	log    []AtlasReq
+	sink   string // file to append the request log to (child mode)
+}
+
+const fakeNonce, fakeRealm, fakeOpaque = "Zm9vYmFyMTIzNDU2Nzg5MA==", "MMS Public API", "5ccc069c403ebaf9f0171e9517f40e41"
+
+var clusterRe = regexp.MustCompile(`^/api/atlas/v2/groups/([^/]*)/clusters/([^/]*)$`)
+var logRe = regexp.MustCompile(`^/api/atlas/v2/groups/([^/]*)/clusters/([^/]*)/logs/mongodb\.gz$`)
+
+type cutBody struct {
+	r    io.Reader
+	done bool
+}
+
+func (c *cutBody) Read(p []byte) (int, error) {
+	n, err := c.r.Read(p)
+	if err == io.EOF {
+		return n, io.ErrUnexpectedEOF // the connection dropped before the announced length arrived
+	}
+	return n, err
+}
+func (c *cutBody) Close() error { return nil }
+
+func md5hex(s string) string { return fmt.Sprintf("%x", md5.Sum([]byte(s))) }
+
+var digParamRe = regexp.MustCompile(`(\w+)=(?:"([^"]*)"|([^,]*))`)
+
+// checkDigest validates an Authorization: Digest header against the scripted key pair.
+func (f *fakeAtlas) checkDigest(req *http.Request, h string) bool {
+	p := map[string]string{}
+	for _, m := range digParamRe.FindAllStringSubmatch(strings.TrimPrefix(h, "Digest "), -1) {
+		if m[2] != "" {
+			p[m[1]] = m[2]
+		} else {
+			p[m[1]] = m[3]
+		}
+	}
+	if p["username"] != f.script.Public || p["nonce"] != fakeNonce || p["uri"] != req.URL.RequestURI() {
+		return false
+	}
+	ha1 := md5hex(f.script.Public + ":" + fakeRealm + ":" + f.script.Private)
+	ha2 := md5hex(req.Method + ":" + p["uri"])
+	want := md5hex(ha1 + ":" + fakeNonce + ":" + p["nc"] + ":" + p["cnonce"] + ":" + p["qop"] + ":" + ha2)
+	return p["response"] == want
+}
+
+func (f *fakeAtlas) RoundTrip(req *http.Request) (*http.Response, error) {
+	f.mu.Lock()
+	defer f.mu.Unlock()
+	rec := AtlasReq{Method: req.Method, URL: req.URL.String(), Scheme: req.URL.Scheme, Host: req.URL.Host, Path: req.URL.EscapedPath(), Query: req.URL.RawQuery, Header: map[string][]string{}}
+	for k, v := range req.Header {
+		rec.Header[k] = append([]string(nil), v...)
+	}
+	if req.Body != nil {
+		b, _ := io.ReadAll(req.Body)
+		rec.Body = string(b)
+	}
+	authH := req.Header.Get("Authorization")
+	switch {
+	case authH == "":
+	case strings.HasPrefix(authH, "Digest "):
+		if f.checkDigest(req, authH) {
+			rec.Auth = "digest-ok"
+		} else {
+			rec.Auth = "digest-bad"
+		}
+	case strings.HasPrefix(authH, "Basic "):
+		rec.Auth = "basic"
+	default:
+		rec.Auth = "other"
+	}
+	var hs *HostScript
+	ans := AnsNetErr
+	var body []byte
+	cut := -1
+	if req.URL.Host == atlasHost && req.URL.Scheme == "https" {
+		if m := clusterRe.FindStringSubmatch(req.URL.Path); m != nil {
+			rec.Kind = "cluster"
+			if rec.Auth == "" {
+				ans = f.script.ClusterUnauth
+			} else {
+				ans = f.script.ClusterAuth
+			}
+			body = []byte(f.script.ClusterBody)
+			cut = f.script.ClusterCut
+		} else if m := logRe.FindStringSubmatch(req.URL.Path); m != nil {
+			rec.Kind, rec.LogHost = "log", m[2]
+			hs = f.script.Hosts[m[2]]
+			if hs == nil {
+				ans = Ans404
+			} else {
+				if rec.Auth == "" {
+					ans = hs.Unauth
+				} else {
+					ans = hs.Auth
+				}
+				body, cut = hs.Payload, hs.Cut
+			}
+		} else {
+			rec.Kind, ans = "other", Ans404
+		}
+	} else {
+		rec.Kind = "foreign"
+	}
+	if rec.Auth == "digest-bad" || rec.Auth == "other" {
+		ans = Ans401 // a real server refuses a wrong digest
+	}
+	if rec.Auth == "basic" {
+		ans = Ans401
+	}
+	if ans == "" {
+		ans = AnsOK
+	}
+	rec.Answer = ans
+	f.log = append(f.log, rec)
+	if f.sink != "" {
+		if fh, err := os.OpenFile(f.sink, os.O_APPEND|os.O_CREATE|os.O_WRONLY, 0o644); err == nil {
+			b, _ := json.Marshal(rec)
+			fh.Write(append(b, '\n'))
+			fh.Close()
+		}
+	}
+	mk := func(code int, hdr http.Header, b io.ReadCloser, n int64) *http.Response {
+		if hdr == nil {
+			hdr = http.Header{}
+		}
+		return &http.Response{StatusCode: code, Status: fmt.Sprintf("%d %s", code, http.StatusText(code)), Proto: "HTTP/1.1", ProtoMajor: 1, ProtoMinor: 1, Header: hdr, Body: b, ContentLength: n, Request: req}
+	}
+	str := func(s string) (io.ReadCloser, int64) { return io.NopCloser(strings.NewReader(s)), int64(len(s)) }
+	switch ans {
+	case AnsNetErr:
+		return nil, errors.New("read tcp 10.0.0.1:50000->10.0.0.2:443: read: connection reset by peer")
+	case AnsDigest:
+		b, n := str(`{"error":401,"reason":"Unauthorized","detail":"You are not authorized for this resource."}`)
+		return mk(401, http.Header{"Www-Authenticate": {fmt.Sprintf(`Digest realm="%s", domain="", nonce="%s", algorithm=MD5, qop="auth", stale=false`, fakeRealm, fakeNonce)}, "Content-Type": {"application/json"}}, b, n), nil
+	case AnsBadDig:
+		b, n := str(`{"error":401}`)
+		return mk(401, http.Header{"Www-Authenticate": {`Digest realm="x", nonce="y", unknownparam="z"`}}, b, n), nil
+	case AnsBasic:
+		b, n := str(`{"error":401,"reason":"Unauthorized"}`)
+		return mk(401, http.Header{"Www-Authenticate": {`Basic realm="MMS Public API"`}}, b, n), nil
+	case Ans401:
+		b, n := str(`{"error":401,"reason":"Unauthorized"}`)
+		return mk(401, nil, b, n), nil
+	case Ans403:
+		b, n := str(`{"error":403,"reason":"Forbidden","detail":"IP address not on the access list"}`)
+		return mk(403, nil, b, n), nil
+	case Ans404:
+		b, n := str(`{"error":404,"reason":"Not Found","errorCode":"RESOURCE_NOT_FOUND"}`)
+		return mk(404, nil, b, n), nil
+	case Ans500Echo:
+		var sb strings.Builder
+		fmt.Fprintf(&sb, "Internal error while handling %s %s\n", req.Method, req.URL.String())
+		keys := make([]string, 0, len(req.Header))
+		for k := range req.Header {
+			keys = append(keys, k)
+		}
+		sort.Strings(keys)
+		for _, k := range keys {
+			fmt.Fprintf(&sb, "%s: %s\n", k, strings.Join(req.Header[k], ", "))
+		}
+		b, n := str(sb.String())
+		return mk(500, nil, b, n), nil
+	case AnsCut:
+		if cut < 0 || cut > len(body) {
+			cut = len(body) / 2
+		}
+		return mk(200, nil, &cutBody{r: bytes.NewReader(body[:cut])}, int64(len(body))), nil
+	default: // AnsOK
+		return mk(200, nil, io.NopCloser(bytes.NewReader(body)), int64(len(body))), nil
+	}
+}
+
+// installChildSeams: child-cli mode.  With VERIF_ATLAS_SCRIPT set, http.DefaultTransport becomes the
+// scripted endpoint; every request is appended to VERIF_ATLAS_LOG.  Without it, DefaultTransport refuses
+// everything (and logs), so that no check can ever reach the network.
+func installChildSeams() {
+	f := &fakeAtlas{script: &AtlasScript{}, sink: os.Getenv("VERIF_ATLAS_LOG")}
+	if p := os.Getenv("VERIF_ATLAS_SCRIPT"); p != "" {
+		b, err := os.ReadFile(p)
+		if err != nil {
+			fmt.Fprintln(os.Stderr, "verif child: cannot read script:", err)
+			os.Exit(97)
+		}
+		if err := json.Unmarshal(b, f.script); err != nil {
+			fmt.Fprintln(os.Stderr, "verif child: bad script:", err)
+			os.Exit(97)
+		}
+	}
+	http.DefaultTransport = f
+}
+
+// ---- payload builders
+func gzBytes(parts ...[]byte) []byte {
+	var out bytes.Buffer
+	for _, p := range parts {
+		w := gzip.NewWriter(&out)
+		w.Write(p)
+		w.Close()
+	}
+	return out.Bytes()
+}
+
+func clusterBodyFor(hosts []string, withPorts []bool, srv bool) string {
+	var hp []string
+	for i, h := range hosts {
+		if withPorts[i%len(withPorts)] {
+			hp = append(hp, fmt.Sprintf("%s:%d", h, 27017+i))
+		} else {
+			hp = append(hp, h)
+		}
+	}
+	std := "mongodb://" + strings.Join(hp, ",") + "/?ssl=true&authSource=admin&replicaSet=atlas-abc-shard-0"
+	if srv {
+		std = "mongodb+srv://" + hosts[0] + "/?retryWrites=true"
+	}
+	b, _ := json.Marshal(map[string]any{"clusterType": "REPLICASET", "name": "c", "connectionStrings": map[string]any{"standard": std, "standardSrv": "mongodb+srv://clu.abcde.mongodb.net"}, "mongoDBVersion": "8.0.4"})
+	return string(b)
+}
